@@ -193,9 +193,10 @@ def save_ordering(ctx, F):
     R = "R-ORDER"
     for fn in ("Document::save_internal", "IncrementalDocument::save_internal"):
         b = F.fn(fn)
-        fs = lib.format_sites(b)
-        hdr = [s for s in fs if any(k == "lit" and v.startswith(b"%PDF-") for k, v in s["pieces"])]
-        sx = [s for s in fs if any(k == "lit" and b"startxref" in v for k, v in s["pieces"])]
+        toks = lib.out_tokens(b)
+        hdr = [{"bb": t[2]} for t in toks if t[0] == "lit" and b"%PDF-" in t[1]]
+        sxi = [i for i, t in enumerate(toks) if t[0] == "lit" and b"startxref" in t[1]]
+        sx = [toks[i] for i in sxi]
         wio = [c for c in b.calls if c.local and c.cname.endswith("Writer::write_indirect_object")]
         bm = [c for c in b.calls if c.local and c.cname.endswith("Writer::write_binary_mark")]
         wx = [c for c in b.calls if c.local and (c.cname.endswith("Writer::write_xref") or c.cname.endswith("write_cross_reference_stream"))]
@@ -218,8 +219,9 @@ def save_ordering(ctx, F):
         ctx.ob(R, "xref_start-after-objects|%s" % fn, okx, "xref_start = %s, read after the last object and before the cross-reference section" % how, b.where(),
                what="%s does not take xref_start from the byte counter between the last object and the cross-reference section" % fn)
         oks = False
-        if len(sx) == 1 and sx[0]["args"]:
-            oks = "xref_start" in lib.traced(b, sx[0]["args"][0].operand, 4) and [v for k, v in sx[0]["pieces"] if k == "lit"] == [b"\nstartxref\n", b"\n%%EOF"]
+        if len(sxi) == 1 and sxi[0] + 2 < len(toks) + 0 and len(toks) > sxi[0] + 2:
+            t0, t1, t2 = toks[sxi[0]], toks[sxi[0] + 1], toks[sxi[0] + 2]
+            oks = t0[1].endswith(b"\nstartxref\n") and t1[0] == "val" and "xref_start" in lib.val_source(b, t1[1]) and t2[0] == "lit" and t2[1].startswith(b"\n%%EOF")
         ctx.ob(R, "startxref-value|%s" % fn, oks, "`startxref` is followed by xref_start and %%EOF", b.where(), what="the value after `startxref` is not xref_start (or the trailer keywords changed)")
         # the stream variant receives the same xref_start
         cs = [c for c in wx if c.cname.endswith("write_cross_reference_stream")]
